@@ -65,6 +65,7 @@ class FlowPolicy(Policy):
         # tracks as an event is interpreted, not left opaque - so extracting some lines into a helper (method, nested or module-level function) changes nothing
         self.auto_inline = True
         self.free_inline = set()
+        self._fn_names = {}
         self.auto_inline_max_stmts = 30
         if inline:
             self.inline_depth = 3
@@ -145,8 +146,44 @@ class FlowPolicy(Policy):
             return True
         return False
 
+    def _known_labels(self):
+        ks = set(k for k in self.summaries if isinstance(k, str)) | set(self.raising_labels) | set(self.extra_no_raise) | set(self.acquire_labels)
+        ks |= {e for e in self.events if isinstance(e, str)}
+        return ks
+
+    def _alias(self, interp, label, cfg):
+        """A rule names a call by the text the code had when it was written (`dm.start`).  When the function no longer has a local of that name but calls
+        the same method on another local - the variable was renamed - the call is the one the rule means: it is reported under the rule's label, and
+        the rule's name for the variable is bound to the same object.  Applies only when exactly one known label has that method name."""
+        if not label or label.count(".") != 1 or isinstance(interp.call_stack[-1] if interp.call_stack else None, ast.Lambda):
+            return label, cfg
+        var, meth = label.split(".")
+        if var in ("self", "cls") or var not in cfg.env:
+            return label, cfg
+        known = self._known_labels()
+        if label in known:
+            return label, cfg
+        fn = interp.call_stack[-1] if interp.call_stack else None
+        key = id(fn)
+        if key not in self._fn_names:
+            names = set()
+            if fn is not None:
+                for n in ast.walk(fn):
+                    if isinstance(n, ast.Name):
+                        names.add(n.id)
+                    elif isinstance(n, ast.arg):
+                        names.add(n.arg)
+            self._fn_names[key] = names
+        cands = [k for k in known if k.count(".") == 1 and k.split(".")[1] == meth and k.split(".")[0] not in ("self", "cls") and k.split(".")[0].isidentifier()
+                 and k.split(".")[0] not in self._fn_names[key] and k.split(".")[0] not in self.globals_]
+        if len(cands) != 1:
+            return label, cfg
+        want = cands[0].split(".")[0]
+        return cands[0], cfg.set(want, cfg.env[var])
+
     def call(self, interp, node, fname, fval, args, kwargs, cfg, out):
         label = self.label(fname, fval)
+        label, cfg = self._alias(interp, label, cfg)
         if isinstance(fval, App) and fval.op == "boundmethod":
             r = interp.container_method(node, fval.args[0], fval.args[1].v, args, kwargs, cfg)
             if r is not None:
@@ -180,7 +217,7 @@ class FlowPolicy(Policy):
         if isinstance(fval, FuncV) and fval.closure and self.inline_nested(fval):
             return None
         if self.auto_inline and not ev and isinstance(fval, FuncV) and getattr(fval, "node", None) is not None and not isinstance(fval.node, ast.Lambda) \
-                and label not in self.raising_labels and not self.is_no_raise(label) and self._small_local_helper(interp, fval) \
+                and label not in self.raising_labels and label not in self.extra_no_raise and self._small_local_helper(interp, fval) \
                 and (not isinstance(fval.node, ast.AsyncFunctionDef) or isinstance(getattr(node, "_parent", None), ast.Await)):  # (calling a coroutine function runs nothing until it is awaited)
             if self.inline_depth < 2:
                 self.inline_depth = 2
